@@ -1,6 +1,6 @@
 import TracklibVerif.Lemmas.SimplifyVwAny
 import TracklibVerif.Lemmas.SimplifyVw
-/-! Visvalingam, **mixed columns** (some `'@aire'` entries numbers below ARGMIN's initial minimum, some infinite or NaN): when exactly the
+/-! Visvalingam, **mixed columns** (some `'@aire'` entries numbers below ARGMIN's initial minimum, some infinite — found since b728412 — or NaN — never found): when exactly the
 first observation survives. The entry of the first observation is NaN from the start and is never rewritten while ARGMIN answers an
 index >= 1 (the two neighbour updates write `id - 1 >= 1` and `id >= 1`); ARGMIN answers an index >= 1 exactly when it finds a minimum,
 i.e. when some entry is a number below its initial minimum or equal to it (`Hit`; `+inf` itself counts since b728412: only a column
